@@ -90,6 +90,7 @@ def stub(name):
 
 class C05(Prop):
     id = 'C05'
+    also = ['C05S']   # scheduler-level half: queue limits in the running scheduler (Sched3Q)
     props_modules = ['CylcModel.Props.C05']
     theorems = [
         'CylcModel.C05.membership_partition',
